@@ -171,7 +171,14 @@ def run_linsolve(case, ctx, rng):
             A = Afull
         else:
             ctx.count("decoupled_then_coupled")
-    sA, sb = pym.Signal("A", matgen.to_storage(A, st)), pym.Signal("b", b)
+    A_st = matgen.to_storage(A, st)
+    if st != "dense" and A is not Afull and rng.random() < 0.6:
+        # what an assembly routine produces: the sparsity pattern of the full matrix with *explicit zeros* where the couplings vanish
+        # (void elements, a spring of zero stiffness) - later matrices then have the very same pattern
+        P_ = sps.coo_matrix(Afull != 0)
+        A_st = {"csc": sps.csc_matrix, "csr": sps.csr_matrix}[st]((np.asarray(A)[P_.row, P_.col], (P_.row, P_.col)), shape=A.shape)
+        ctx.count("decoupled_with_explicit_zeros")
+    sA, sb = pym.Signal("A", A_st), pym.Signal("b", b)
     m = pym.LinSolve([sA, sb], pym.Signal("x"), **kw)
     if sol == "nolda":
         m.use_lda_solver = False
